@@ -1208,6 +1208,97 @@ def expect_from_script(be, lines, impl_lines):
     return expect, meta
 
 
+# ============================================================================ corpus/C08: witnesses of the repaired defects
+CORPUS = os.path.join(vlib.ROOT, "corpus", "C08")
+STR_POS = {"cgio": {"file": [2], "create": [4], "rename": [4], "link": [4, 5, 6], "label": [3], "rd": [3], "pathadd": [1], "junk": [1],
+                    "unlinkf": [1], "setenv": [2], "chdir": [1]},
+           "mll": {"setenv": [2], "setpath": [1], "addpath": [1], "cfgset": [1], "cfgadd": [1], "mkfile": [1], "unlinkf": [1], "open": [2],
+                   "linkw": [2, 3, 4, 5], "islink": [2], "linkr": [2], "delnode": [2, 3]}}
+
+
+def _readable(line, kind, root):
+    """hex string arguments -> s:<text> with the work directory replaced by @ROOT@ (corpus files are relocatable)"""
+    t = line.split(" ")
+    for k in STR_POS[kind].get(t[0], []):
+        if k < len(t):
+            b = b"" if t[k] == "-" else bytes.fromhex(t[k])
+            txt = b.decode("latin-1").replace(root, "@ROOT@")
+            t[k] = "s:" + "".join(c if (33 <= ord(c) <= 126 and c != "%") else "%%%02x" % ord(c) for c in txt)
+    return " ".join(t)
+
+
+def _encoded(line, kind, root):
+    t = line.split(" ")
+    for k in STR_POS[kind].get(t[0], []):
+        if k < len(t) and t[k].startswith("s:"):
+            txt = re.sub(r"%([0-9a-f]{2})", lambda m: chr(int(m.group(1), 16)), t[k][2:]).replace("@ROOT@", root)
+            t[k] = hx(txt.encode("latin-1"))
+    return " ".join(t)
+
+
+CORPUS_CGIO = [(K_STALE, "stale", "adf"), (K_NEST, "nest", "adf"), (K_NEST, "nest2", "adf"), (K_CLOSE, "mutual", "adf"),
+               (K_CLOSE9, "close9", "adf"), (K_H5CHAIN, "chain5", "hdf5"), (K_H5CHAIN, "cycle", "hdf5"), (K_H5CHAIN, "mutual", "hdf5"),
+               (K_H5CHAIN, "close9", "hdf5")]
+
+
+def write_corpus(root="/verif/.work/C08/w"):
+    """development aid (run by hand when a defect is repaired): freeze the directed witnesses into corpus/C08/*.json"""
+    import random
+    os.makedirs(CORPUS, exist_ok=True)
+    for key, name, be in CORPUS_CGIO:
+        g = scenario(name, random.Random(1), be, root)
+        json.dump({"key": key, "kind": "cgio", "backend": be, "name": name,
+                   "script": [_readable(l, "cgio", root) for l in g.lines]},
+                  open(os.path.join(CORPUS, "%s.%s.%s.json" % (key, name, be)), "w"), indent=1)
+    for c in mll_cases(random.Random(7), "adf", root):
+        if c.name == "cg_configure-add-keeps-earlier":
+            json.dump({"key": K_CFGADD, "kind": "mll", "backend": "adf", "name": c.name,
+                       "script": [_readable(l, "mll", root) for l in c.lines],
+                       "expect": [list(e) if isinstance(e, tuple) else e for e in c.expect]},
+                      open(os.path.join(CORPUS, "%s.%s.adf.json" % (K_CFGADD, c.name)), "w"), indent=1)
+    for c in mll_cases(random.Random(7), "hdf5", root):
+        if c.name == "chain":
+            json.dump({"key": K_H5CHAIN, "kind": "mll", "backend": "hdf5", "name": c.name,
+                       "script": [_readable(l, "mll", root) for l in c.lines],
+                       "expect": [list(e) if isinstance(e, tuple) else e for e in c.expect]},
+                      open(os.path.join(CORPUS, "%s.mll-%s.hdf5.json" % (K_H5CHAIN, c.name)), "w"), indent=1)
+
+
+def run_corpus(R):
+    """the regression inputs run first and must PASS; a failure re-fires under the original key (which is no longer listed
+    as known, so it prints VIOLATION)"""
+    ck = R.ck
+    n = 0
+    for fn in sorted(os.listdir(CORPUS)) if os.path.isdir(CORPUS) else []:
+        if not fn.endswith(".json"):
+            continue
+        c = json.load(open(os.path.join(CORPUS, fn)))
+        be, kind = c["backend"], c["kind"]
+        lines = [_encoded(l, kind, R.root) for l in c["script"]]
+        n += 1
+        ck.case("corpus:" + fn)
+        ck.cov["traces_validated_against_impl"] += 1
+        if kind == "cgio":
+            res = run_case(R.exe, be, lines, R.root)
+            exp, meta = expect_from_script(be, lines, res["lines"])
+            fails, div = judge(be, lines, exp, meta, res)
+            if fails:
+                i, desc, _ = fails[0]
+                R.report(c["key"], dict(kind="cgio", backend=be, case="corpus:" + fn, script=lines[: i + 1], failure=desc, line=i,
+                                        note="regression of a repaired defect"))
+            elif div:
+                R.div.append((be, None, "corpus:" + fn, div))
+        else:
+            case = MllCase(c["name"], be, R.root)
+            case.lines = lines; case.expect = [unjson_expect(e) for e in c["expect"]]; case.hint = [None] * len(lines)
+            fails, il, outcome = run_mll(R.mexe, case)
+            if fails:
+                i, desc, _ = fails[0]
+                R.report(c["key"], dict(kind="mll", backend=be, case="corpus:" + fn, script=lines[: i + 1], expect=jsonable(case.expect),
+                                        hint=[None] * len(lines), failure=desc, line=i, note="regression of a repaired defect"))
+    return n
+
+
 # ============================================================================ the check
 def jsonable(x):
     if isinstance(x, (set, tuple, list)):
@@ -1345,6 +1436,8 @@ def run(ck):
                       "values written into the target, for every way of setting the search path. non-trivial = a cross-file link resolved, a link "
                       "deleted or re-targeted with the before/after dump, a target renamed or moved, and at least two closes; distinct by SHA1")
     R = Runner(ck, exe, mexe)
+    # ---- 0. regression corpus: the witnesses of the repaired defects
+    R.dist["corpus_cases"] = run_corpus(R)
     # ---- 1. directed scenarios
     for name in SCENARIOS:
         for be in ("adf", "hdf5"):
@@ -1394,7 +1487,7 @@ def run(ck):
         found = False
         for be, g, tag, div in R.div[:2]:
             for k in range(30 if thorough else 12):
-                g2 = Gen(ck.rng, be, R.root, len(g.w.files) or 2, nops=40).build()
+                g2 = Gen(ck.rng, be, R.root, (len(g.w.files) if g is not None else 0) or 2, nops=40).build()
                 res = run_case(exe, be, g2.lines, R.root)
                 fails, _ = judge(be, g2.lines, g2.expect, g2.meta, res)
                 bad = [(i, d) for i, d, key in fails if key is None]
@@ -1407,7 +1500,7 @@ def run(ck):
                 break
         if not found:
             be, g, tag, div = R.div[0]
-            ck.violation({"broken_correspondence": div, "backend": be, "case": tag, "script": g.lines[: div["line"] + 1][-200:],
+            ck.violation({"broken_correspondence": div, "backend": be, "case": tag, "script": (g.lines[: div["line"] + 1][-200:] if g is not None else None),
                           "note": "coq/Links.v and the library answer differently although every oracle (ideal resolution, direct reads, "
                                   "before/after dumps) is satisfied on everything explored"}, nofail=True)
     if broken and not ck.violations:
